@@ -6,7 +6,8 @@
 (*   ToggleSep    '-' <-> '_' at one position                              *)
 (*   ToggleCase   change the letter case of one token (or of one byte)     *)
 (*   SwapSame     exchange two adjacent variants / attributes              *)
-(*   Duplicate    repeat a variant / attribute                             *)
+(*   Duplicate    repeat a variant / attribute (next to the original)      *)
+(*   DupFar       repeat a variant / attribute at the END of its list      *)
 (*   SwapGroups   exchange two adjacent keyword groups or tfield groups    *)
 (*                with distinct keys                                       *)
 (*   SwapUT       exchange the -u- and the -t- extension                   *)
@@ -67,8 +68,13 @@ SeedsB == { Seed("en-u-ca-buddhist-ca-gregory"),          \* duplicate key (free
             Seed("en--US"), Seed("en-u-"), Seed("e-US"), Seed("en-valencia-abcd"),
             Seed("en-t-h0-u-ca"), Seed("en-x-u-ca-t-en"), Seed("en-x-a--") }
 SeedsC == { Seed("sr-Cyrl-RS-1abc-valencia-u-abc-def-nu-latn-co-phonebk-t-und-Latn-m0-names-s0-ascii") }
+(* long lists: a dozen members per unordered part                            *)
+SeedsD == { Seed("sl-1abc-aaaaa-bbbbb-ccccc-ddddd-eeeee-fffff-ggggg-hhhhh-iiiii-jjjjj-kkkkk"),
+            Seed("en-u-a01-a02-a03-a04-a05-a06-a07-a08-a09-a10-a11-a12"),
+            Seed("en-u-ca-x1x-cb-x1x-cc-x1x-cd-x1x-ce-x1x-cf-x1x-cg-x1x-ch-x1x-ci-x1x-cj-x1x"),
+            Seed("en-t-a0-x1x-b0-x1x-c0-x1x-d0-x1x-e0-x1x-f0-x1x-g0-x1x-h0-x1x-i0-x1x-j0-x1x") }
 Seeds == IF SeedSet = "A" THEN SeedsA ELSE IF SeedSet = "B" THEN SeedsB
-         ELSE IF SeedSet = "C" THEN SeedsC ELSE SeedsA \cup SeedsB
+         ELSE IF SeedSet = "C" THEN SeedsC ELSE IF SeedSet = "D" THEN SeedsD ELSE SeedsA \cup SeedsB
 
 Init == \E sd \in Seeds : toks = sd.toks /\ seps = sd.seps /\ n = 0
 
@@ -107,6 +113,18 @@ Duplicate == LET roles == Roles(toks) IN
         /\ Do("dup-" \o roles[i],
               SubSeq(toks, 1, i) \o <<toks[i]>> \o SubSeq(toks, i+1, Len(toks)),
               SubSeq(seps, 1, i-1) \o <<45>> \o SubSeq(seps, i, Len(seps)))
+(* the copy goes behind the last member of the list the original is in      *)
+RunEnd(roles, i) ==
+    LET later == { j \in (i+1)..Len(roles) : roles[j] # roles[i] } IN
+    IF later = {} THEN Len(roles) ELSE (CHOOSE j \in later : \A k \in later : j <= k) - 1
+DupFar == LET roles == Roles(toks) IN
+    \E i \in 2..Len(toks) :
+        /\ roles[i] \in {"variant", "attr", "tvariant"}
+        /\ LET e == RunEnd(roles, i) IN
+           /\ e > i
+           /\ Do("dupfar-" \o roles[i],
+                 SubSeq(toks, 1, e) \o <<toks[i]>> \o SubSeq(toks, e+1, Len(toks)),
+                 SubSeq(seps, 1, e-1) \o <<45>> \o SubSeq(seps, e, Len(seps)))
 SwapGroups == LET roles == Roles(toks) IN
     \E i \in 2..Len(toks) : \E kr \in {"ukey", "tkey"} :
         LET vr == IF kr = "ukey" THEN "utype" ELSE "tvalue"
@@ -127,7 +145,7 @@ SwapUT == LET roles == Roles(toks) IN
         /\ LET e2 == BlockEnd(roles, e1 + 1) IN
            Do("swap-ut", Rotate(toks, i, e1, e2), seps)
 
-Next == n < MaxSteps /\ (ToggleSep \/ ToggleCase \/ ToggleByte \/ SwapSame \/ Duplicate \/ SwapGroups \/ SwapUT)
+Next == n < MaxSteps /\ (ToggleSep \/ ToggleCase \/ ToggleByte \/ SwapSame \/ Duplicate \/ DupFar \/ SwapGroups \/ SwapUT)
 Spec == Init /\ [][Next]_<<toks, seps, n>>
 
 (* ----- the property, on the specification -------------------------------- *)
